@@ -198,8 +198,62 @@ func clientTimeout(c *Ctx) bool {
 	return false
 }
 
+// checkPollDeadline is R08.5: a driver's ReceiveProbe returns within the poll interval the engine hands it – on every inlined
+// path of ReceiveProbe the read deadline armed before the capture read is time.Now().Add(d) with d the method's own duration
+// parameter (the engines re-test their timeout / cancellation contexts between polls; a deadline taken from a configuration
+// field makes one poll as long as the whole run).
+func checkPollDeadline(c *Ctx) {
+	R := c.R
+	n := 0
+	for _, d := range Drivers(c.P) {
+		f := d.ReceiveProbe
+		fn := core.FuncName(f)
+		var durParam *ssa.Parameter
+		for _, pa := range f.Params {
+			if isNamed(pa.Type(), "time", "Duration") {
+				durParam = pa
+			}
+		}
+		if durParam == nil {
+			R.Fail("R08.5", fn+"#poll-parameter", f.Pos(), fn, "ReceiveProbe has no time.Duration parameter: undecided")
+			continue
+		}
+		want := "param:" + durParam.Name()
+		for _, ip := range InlinedPaths(c.P, f, inlineOpts{pkg: core.FuncPkg(f), stop: hasLoop, maxDepth: 4}) {
+			var last *core.Term
+			var lastPos token.Pos
+			for _, ev := range ip.Events {
+				call, ok := ev.Instr.(*ssa.Call)
+				if !ok || ev.Kind != "call" {
+					continue
+				}
+				cc := call.Common()
+				if cc.IsInvoke() && cc.Method.Name() == "SetReadDeadline" && len(ev.Args) >= 2 {
+					last, lastPos = ev.Args[1], call.Pos()
+				}
+				if !isCaptureRead(cc) {
+					continue
+				}
+				n++
+				key := fn + "#poll-deadline"
+				switch {
+				case last == nil:
+					R.FailPath("R08.5", key, call.Pos(), fn, "the capture read is reached without a read deadline armed on this path", ip.Desc)
+				case last.Op == "call" && last.Name == "(time.Time).Add" && len(last.Args) == 2 && last.Args[0].Op == "call" && last.Args[0].Name == "time.Now" && last.Args[1].StripConv().String() == want:
+					R.OK("R08.5", key, lastPos, fn, "read deadline = time.Now().Add("+want+")")
+				default:
+					R.FailPath("R08.5", key, lastPos, fn, "the read deadline armed before the capture read is "+last.String()+", not time.Now().Add("+want+"): one poll no longer ends within the poll interval the engine asked for, so timeouts and cancellations are noticed late", ip.Desc)
+				}
+				last = nil
+			}
+		}
+	}
+	R.Floor("R08.5:polls", n, 4)
+}
+
 func runC08(c *Ctx) {
 	R := c.R
+	checkPollDeadline(c)
 	fs := ModReach(c.P, c08Roots(c)...)
 	R.Analysed["run_path_functions"] = len(fs)
 	nprim := 0
